@@ -85,8 +85,8 @@ def replay_pair(r):
     from . import panels_lib as pl
     from .oracles import heat_ref as hr
     rec = r["record"]
-    sh = pl.Shape(r["curve"], r["MaxL"], r["TLevels"])
-    fac = pl.Factory(sh, 2)
+    sh = pl.Shape(r["curve"], r["MaxL"], r["TLevels"], r.get("time_unit"))
+    fac = pl.Factory(sh, r.get("TH", 2))
     te, tr = tuple(rec["te"]), tuple(rec["tr"])
     Ete, Etr = fac.get(te), fac.get(tr)
     rc = hr.RefCurve(r["curve"])
@@ -94,4 +94,9 @@ def replay_pair(r):
     ref = hr.entry(rc, sh.real(te), sh.real(tr))
     D = math.sqrt(hr.diag(rc, sh.real(te)) * hr.diag(rc, sh.real(tr)))
     print("bilform = %r, reference = %r, |diff| / (1e-7 sqrt(D D)) = %.3g" % (float(v), ref, abs(v - ref) / (1e-7 * D)))
-    return 0 if abs(v - ref) <= 1e-7 * D else 1
+    bad = abs(v - ref) > 1e-7 * D
+    if Ete.gamma_space is Etr.gamma_space:
+        vx = fac.SLx.bilform(Etr, Ete)
+        print("closed-form path = %r (reference / scale = %.3g)" % (float(vx), ref / D))
+        bad = bad or abs(vx - ref) > 1e-7 * D or (ref > 1e-250 and not vx > 0) or (rec.get("chan") == "bilform" and ref > 1e-250 and not v > 0)
+    return 1 if bad else 0
